@@ -35,6 +35,9 @@ func init() {
 		{ID: "E1.jwks.single-flight.start.handed", AltOf: "E1.jwks.single-flight.started", Fn: "client/rp.(*remoteKeySet).keysFromRemote", P: []string{"r", "ctx"}, Kind: "go", Pat: "gostmt($r.updateKeys($c, $r.inflight))", Max: 1,
 			Why: "the shared download runs once per inflight record and must not be cancelled by the first caller's context (other callers wait for it)",
 			Req: []string{"eq($r.inflight, rp.newInflight()) || eq($r.inflight, &inflight{doneCh: make(_)})", "detachedCtx($c)"}},
+		{ID: "E1.jwks.single-flight.start.handed-local", AltOf: "E1.jwks.single-flight.started", Fn: "client/rp.(*remoteKeySet).keysFromRemote", P: []string{"r", "ctx"}, Kind: "go", Pat: "gostmt($r.updateKeys($c, $own))", Not: "gostmt($r.updateKeys(_, $r.inflight))", Max: 1,
+			Why: "the shared download runs once per inflight record and must not be cancelled by the first caller's context (other callers wait for it)",
+			Req: []string{"eq($r.inflight, $own)", "def($own, rp.newInflight()) || def($own, &inflight{doneCh: make(_)})", "detachedCtx($c)"}},
 		{ID: "E1.jwks.single-flight.only-start", Fn: "client/rp.(*remoteKeySet).keysFromRemote", Kind: "go", Max: 1},
 		{ID: "E1.jwks.update.done-once", AltOf: "E1.jwks.update.signals", Arity: 2, Fn: "client/rp.(*remoteKeySet).updateKeys", P: []string{"r", "ctx"}, Kind: "call", Pat: "$r.inflight.done($keys, $err)", Max: 1,
 			Req: []string{"def($keys, $r.fetchRemoteKeys(_), 0)", "def($err, $r.fetchRemoteKeys(_), 1)"}},
